@@ -5,12 +5,12 @@ CONSTANTS
   MaxDepth = 3
   MaxRoots = 1
   NCPU = 2
-  MemVals = {1, 2}
+  MemVals = {2, 3}
   ThrVals = {}
   CpuCounts = {0, 1}
   CpuPcts = {100}
   Cores = {c0, c1}
-  OtherVals = {FALSE, TRUE}
+  OtherVals = {TRUE}
   Paths = {"direct", "merged"}
 VIEW View
 SYMMETRY CoreSym
